@@ -23,6 +23,8 @@ for m in pkgutil.walk_packages(fusion_engine_client.__path__, 'fusion_engine_cli
         notes.append('module %s not importable (%s): skipped' % (m.name, type(e).__name__))
 
 enum_classes = {}
+import re
+UNRECOGNIZED = re.compile(r'^_U_-?\d+$')     # members the library adds for unrecognized VALUES ('_U_<value>')
 
 
 def enum_access_failure(E, name, member, listed):
@@ -58,6 +60,7 @@ def snapshot():
     """every table C03 is about, as plain values (copied now, so later mutation by library code shows)"""
     notes_local = []
     enums = {}
+    canonical = {}
     access_failures = []
     for mod in mods:
         if not mod.__name__.startswith('fusion_engine_client.messages'):
@@ -75,7 +78,7 @@ def snapshot():
                         if len(v) != len(listed):
                             access_failures.append([key, '', 0, 'len(E) = %d but iteration yields %d members' % (len(v), len(listed))])
                         for name, member in v.__members__.items():          # includes aliases
-                            if name.startswith('_U') or int(member.value) < 0:
+                            if UNRECOGNIZED.match(name) or int(member.value) < 0:
                                 continue        # placeholders for unrecognized values (_U...) / names (negative): never on the wire
                             why = enum_access_failure(v, name, member, listed)
                             if why:
@@ -84,14 +87,37 @@ def snapshot():
                                 rows.append([name, int(member.value)])
                         enums[key] = rows
                         enum_classes[key] = v
+                        canonical[key] = sorted({(int(m.value), v(int(m.value)).name) for nm, m in v.__members__.items()
+                                                 if [nm, int(m.value)] in rows} if not any(f[0] == key for f in access_failures) else [])
                 elif depth < 3:
                     visit(v, depth + 1)
         visit(mod, 0)
 
     MT = defs.MessageType
-    classification = [[int(t), bool(defs.is_command(t)), bool(defs.is_response(t))]
-                      for n, t in MT.__members__.items() if not n.startswith('_U') and int(t) >= 0]
-
+    import numpy as _np
+    classification = []
+    members = [(n, t) for n, t in MT.__members__.items() if not UNRECOGNIZED.match(n) and int(t) >= 0]
+    extra = [v for v in json.loads(os.environ.get('C03_EXTRA_VALUES', '[]')) if v not in {int(t) for _, t in members}]
+    for n, t in members + [('(%d)' % v, v) for v in extra]:
+        # every argument form the functions accept must give the same answer
+        forms = [('member', t)] if not isinstance(t, int) or isinstance(t, enum.Enum) else []
+        forms += [('int', int(t)), ('numpy.uint16', _np.uint16(int(t)))]
+        if not isinstance(t, enum.Enum):
+            try:
+                forms.append(('lenient member', MT(int(t), raise_on_unrecognized=False)))
+            except Exception:
+                pass
+        answers = {}
+        for fname, arg in forms:
+            try:
+                answers[fname] = (bool(defs.is_command(arg)), bool(defs.is_response(arg)))
+            except Exception as e:
+                answers[fname] = 'raises %s' % type(e).__name__
+        first = answers[forms[0][0]]
+        if any(a != first for a in answers.values()):
+            access_failures.append(['defs.MessageType', n, int(t), 'is_command/is_response depend on the argument form: %r' % (answers,)])
+        if isinstance(first, tuple) and [int(t), first[0], first[1]] not in classification:
+            classification.append([int(t), first[0], first[1]])
 
     def all_subclasses(c):
         out = []
@@ -120,6 +146,8 @@ def snapshot():
             'command_messages': sorted(int(t) for t in defs.COMMAND_MESSAGES),
             'response_messages': sorted(int(t) for t in defs.RESPONSE_MESSAGES),
             'classes': [r[:3] for r in classes], 'registry': registry, 'access_failures': access_failures,
+            'canonical': {k: [list(x) for x in v] for k, v in canonical.items()},
+            'by_name_classes': sorted([c.__name__, c.__module__.split('.')[-1] + '.' + c.__qualname__, int(c.MESSAGE_TYPE)] for c in dict.fromkeys(all_subclasses(defs.MessagePayload)) if hasattr(c, 'MESSAGE_TYPE')),
             'by_name': sorted([n, int(t)] for n, t in M.message_type_by_name.items()),
             'object_ids': {'COMMAND_MESSAGES': id(defs.COMMAND_MESSAGES), 'RESPONSE_MESSAGES': id(defs.RESPONSE_MESSAGES),
                            'message_type_to_class': id(M.message_type_to_class), 'message_type_by_name': id(M.message_type_by_name)},
